@@ -431,6 +431,8 @@ def seeds():
 
 def failing(obs):
     """is this observation a failing input of C09?"""
+    if obs.startswith("fault skipped"):
+        return None          # not run (the process had already hung several times in this batch): not evidence of anything
     if obs.startswith("fault"):
         return "crash/sanitizer/hang: " + obs
     if obs.startswith("diag") and obs.rstrip().endswith("image=1"):
@@ -451,7 +453,11 @@ def shrink_text(h, src, action, max_rounds=30):
     def bad(s):
         return failing(observe(h, [s], action)[0]) is not None
     cur = src
-    for _ in range(max_rounds):
+    t0 = time.time()
+    hang = "hang" in observe(h, [src], action)[0]
+    for _ in range(max_rounds if not hang else 3):
+        if time.time() - t0 > 90:
+            break                      # the unshrunk input is a replay too; do not spend minutes on a smaller one
         toks = tokenize(cur)
         cands = []
         n = len(toks)
@@ -462,7 +468,7 @@ def shrink_text(h, src, action, max_rounds=30):
                 if c != cur and len(c) < len(cur):
                     cands.append(c)
             step //= 2
-        cands = list(dict.fromkeys(cands))[:300]
+        cands = list(dict.fromkeys(cands))[:300 if not hang else 12]
         if not cands:
             break
         obs = observe(h, cands, action)
